@@ -176,6 +176,38 @@ fn root_kind(e: &Exp) -> String {
     }
 }
 
+/// all logic-only trees with exactly `n` operator nodes (not, and, or, xor, implies, iff) over {b, x, 0, 1, 2}
+fn logic_trees(n: usize, memo: &mut Vec<Arc<Vec<Exp>>>) -> Arc<Vec<Exp>> {
+    if let Some(v) = memo.get(n) {
+        return v.clone();
+    }
+    assert_eq!(memo.len(), n);
+    let mut out: Vec<Exp> = vec![];
+    if n == 0 {
+        out = vec![Exp::Variable("b".into()), Exp::Variable("x".into()), Exp::Number(0.0), Exp::Number(1.0), Exp::Number(2.0)];
+    } else {
+        for e in memo[n - 1].iter() {
+            out.push(Exp::Not(e.clone().to_box()));
+        }
+        for ls in 0..n {
+            let rs = n - 1 - ls;
+            let (l, r) = (memo[ls].clone(), memo[rs].clone());
+            for a in l.iter() {
+                for b in r.iter() {
+                    out.push(Exp::Xor(a.clone().to_box(), b.clone().to_box()));
+                    out.push(Exp::Implies(a.clone().to_box(), b.clone().to_box()));
+                    out.push(Exp::Iff(a.clone().to_box(), b.clone().to_box()));
+                    out.push(Exp::And(vec![a.clone(), b.clone()]));
+                    out.push(Exp::Or(vec![a.clone(), b.clone()]));
+                }
+            }
+        }
+    }
+    let v = Arc::new(out);
+    memo.push(v.clone());
+    v
+}
+
 fn assignments() -> Vec<Env> {
     let vals = [q(-2), q(-1), q(0), qr(1, 2), q(1), q(2)];
     let mut out = vec![];
@@ -265,7 +297,7 @@ fn check_tree(t: &Exp, envs: &[Env], l: &mut Local) {
 
 // ---------------- part B: constant spellings ----------------
 
-const TEMPLATES: [(&str, &str); 7] = [
+const TEMPLATES: [(&str, &str); 10] = [
     ("objective-coefficient", "min {C}\ns.t.\n    x >= -1\n    x <= 2\ndefine\n    x as Real\n"),
     ("row-coefficient", "max x\ns.t.\n    {C} <= 4\n    {C} >= -6\ndefine\n    x as Real\n"),
     ("bound-feeds-exact-abs", "min y\ns.t.\n    {C} <= 4\n    {C} >= -6\n    abs{ x } = y\ndefine\n    x as Real\n    y as Real(0, 100)\n"),
@@ -273,11 +305,15 @@ const TEMPLATES: [(&str, &str); 7] = [
     ("bound-feeds-min-in-row", "min x\ns.t.\n    {C} <= 4\n    {C} >= -6\n    min{ x, 1 } >= -2\ndefine\n    x as Real\n"),
     ("integer-bound", "max x\ns.t.\n    {C} <= 5\ndefine\n    x as IntegerRange(-10, 10)\n"),
     ("abs-of-scaled", "min abs{ {C} + 1 }\ns.t.\n    x >= -3\n    x <= 3\ndefine\n    x as Real\n"),
+    // the coefficient multiplies a block: {C} is spelled over the operand named after the '@'
+    ("block-objective-max@max{ x, 1 }", "min {C} + 3 * x\ns.t.\n    x >= -3\n    x <= 3\ndefine\n    x as Real\n"),
+    ("block-objective-abs@abs{ x }", "max {C} + x\ns.t.\n    x >= -3\n    x <= 2\ndefine\n    x as Real\n"),
+    ("block-row-min@min{ x, 2 }", "max x\ns.t.\n    {C} <= 4\n    {C} >= -3\n    x >= -5\n    x <= 5\ndefine\n    x as Real\n"),
 ];
 const KS: [f64; 6] = [2.0, -2.0, 0.5, -1.0, 4.0, -0.25];
 
-fn spellings(k: f64) -> Vec<(&'static str, String, Option<(String, f64)>)> {
-    // (name, text of k*x, optional API constant)
+fn spellings(k: f64, operand: &str) -> Vec<(&'static str, String, Option<(String, f64)>)> {
+    // (name, text of k*x, optional API constant); `operand` replaces x (a block for the block templates)
     let ks = format!("{}", k.abs());
     let neg = k < 0.0;
     let lit = if neg { format!("-{ks}") } else { ks.clone() };
@@ -292,11 +328,21 @@ fn spellings(k: f64) -> Vec<(&'static str, String, Option<(String, f64)>)> {
         ("x/(1/k)-expr", format!("x / (1 / {})", if neg { format!("(0 - {ks})") } else { ks.clone() }), None),
         ("where-constant", "K * x".to_string(), None),
         ("api-constant", "K * x".to_string(), Some(("K".to_string(), k))),
+        ("where-constant-right", "x * K".to_string(), None),
+        ("api-constant-right", "x * K".to_string(), Some(("K".to_string(), k))),
         ("k*(x)", format!("{lit} * (x)"), None),
         ("-(k'*x)", if neg { format!("-({ks} * x)") } else { format!("-((0 - {ks}) * x)") }, None),
     ];
     // x / negative literal needs parentheses-free literal: "x / -0.5" is valid (unary on the leaf)
     v.retain(|s| !s.1.contains("--"));
+    if operand != "x" {
+        // implicit multiplication is only defined before a variable or a parenthesis
+        v.retain(|s| s.0 != "kx" && s.0 != "(k)x");
+        for s in v.iter_mut() {
+            // the operand is the only x of every spelling
+            s.1 = s.1.replace('x', operand);
+        }
+    }
     v
 }
 
@@ -314,12 +360,13 @@ fn part_b_case(i: u64, l: &mut Local) {
     let mut d = Digits(i);
     let (tname, template) = *d.of(&TEMPLATES);
     let k = *d.of(&KS);
-    let sp = spellings(k);
+    let operand = tname.split('@').nth(1).unwrap_or("x");
+    let sp = spellings(k, operand);
     let mut results = vec![];
     for (sname, text, api) in &sp {
         let mut src = template.replace("{C}", text);
         let mut consts = vec![];
-        if *sname == "where-constant" {
+        if sname.starts_with("where-constant") {
             let lit = if k < 0.0 { format!("0 - {}", k.abs()) } else { format!("{k}") };
             src = src.replace("\ndefine\n", &format!("\nwhere\n    let K = {lit}\ndefine\n"));
         }
@@ -343,7 +390,7 @@ fn part_b_case(i: u64, l: &mut Local) {
                 if let Some(dv) = lm_diff(a, b) {
                     // different rows are acceptable only if the models are exactly equivalent on the declared variables
                     let (sa, sb) = (crate::lm::LmSpec::from_rooc(a).unwrap(), crate::lm::LmSpec::from_rooc(b).unwrap());
-                    if !crate::props::c12::equivalent_exact_pub(&sa, &sb) {
+                    if !crate::props::c12::equivalent_exact_declared(&sa, &sb) {
                         l.violation(format!("spelling:{sname}:different-model:{tname}"), dv.clone(), case(&dv));
                     } else {
                         l.count("twins-equivalent-not-identical");
@@ -368,9 +415,9 @@ fn part_b_case(i: u64, l: &mut Local) {
 pub fn run(mut run: Run) -> ! {
     crate::core::silence_panics();
     let quick = run.quick();
-    run.rule = "part A: every Exp tree with <= 2 operator nodes over the full leaf alphabet {0,1,-0,2,-1,0.5,x,y,b} (thorough adds every tree with 3 operator nodes over a reduced alphabet) over every constructor (BinOp x9, UnOp x2, Abs, Not, Xor, Implies, Iff, n-ary And/Or/Min/Max with 0-3 operands) is rewritten with simplify, flatten and both compositions and evaluated at 72 assignments by an exact reference evaluator; part B: 7 model templates x 6 constants x 12 spellings of the coefficient (incl. named and API-supplied constants) are compiled and compared; distinct = tree debug text / reference twin source; non-trivial = defined at some assignment / compiles".into();
+    run.rule = "part A: every Exp tree with <= 2 operator nodes over the full leaf alphabet {0,1,-0,2,-1,0.5,x,y,b} and every logic-only tree (not, and, or, xor, implies, iff over b, x, 0, 1, 2) with 3 operator nodes (thorough adds every tree with 3 operator nodes over a reduced alphabet) over every constructor (BinOp x9, UnOp x2, Abs, Not, Xor, Implies, Iff, n-ary And/Or/Min/Max with 0-3 operands) is rewritten with simplify, flatten and both compositions and evaluated at 72 assignments by an exact reference evaluator; part B: 10 model templates (the coefficient multiplies a variable, or a max / abs / min block in the objective or in rows) x 6 constants x 14 spellings of the coefficient (incl. named and API-supplied constants on either side) are compiled and compared; distinct = tree debug text / reference twin source; non-trivial = defined at some assignment / compiles".into();
     run.assume("reference semantics: strict exact evaluation, truthy iff non-zero, division by zero undefined; a division is 'diagnosable' when its denominator contains a variable or is a constant zero");
-    run.assume("twin models compared row for row, else by exact equivalence (same optimum/status for the objective and +-e_i on the declared variables)");
+    run.assume("twin models compared row for row, else by exact equivalence (same optimum/status for the objective and for +-e_i on every declared variable; auxiliaries may differ in number and naming)");
     let envs = Arc::new(assignments());
     let mut memo: Vec<Arc<Vec<Exp>>> = vec![];
     let full = true;
@@ -380,6 +427,19 @@ pub fn run(mut run: Run) -> ! {
         let e2 = envs.clone();
         let ts2 = ts.clone();
         run.family(&format!("A-trees-size{n}{}", if full { "-full" } else { "" }), ts.len() as u64, move |i, l| {
+            check_tree(&ts2[i as usize], &e2, l);
+        });
+    }
+    {
+        // logic-only trees with 3 operator nodes (negated operands of implies / iff / xor, nested negations)
+        let mut memo_l: Vec<Arc<Vec<Exp>>> = vec![];
+        for n in 0..=2 {
+            logic_trees(n, &mut memo_l);
+        }
+        let ts = logic_trees(3, &mut memo_l);
+        let e2 = envs.clone();
+        let ts2 = ts.clone();
+        run.family("A-logic-trees-size3", ts.len() as u64, move |i, l| {
             check_tree(&ts2[i as usize], &e2, l);
         });
     }
